@@ -25,6 +25,7 @@ import (
 	"sort"
 	"strconv"
 	"strings"
+	"sync"
 	"time"
 
 	"github.com/ElrondNetwork/elrond-go/data/transaction"
@@ -234,7 +235,8 @@ type inst struct {
 	cfg    string
 	chunks uint32
 	lim    limits
-	v      *view  // cached view of the current state
+	v      *view // cached view of the current state
+	hist   []string
 	nt     string // non-trivial key of the last step
 	out    string // outcome of the last step
 }
@@ -243,6 +245,53 @@ type world struct {
 	c                *mc.Ctx
 	prop             string
 	graceLo, graceHi int64
+
+	mu    sync.Mutex
+	known map[string]*knownSeen
+}
+
+// knownSeen keeps, per non-pruning signature, the number of occurrences and the smallest
+// witness (shortest history, then lexicographic), so the reported witness is deterministic.
+type knownSeen struct {
+	count  int64
+	hist   []string
+	detail string
+}
+
+func (w *world) noteKnown(sig, detail string, hist []string) {
+	w.mu.Lock()
+	defer w.mu.Unlock()
+	if w.known == nil {
+		w.known = map[string]*knownSeen{}
+	}
+	k := w.known[sig]
+	if k == nil {
+		k = &knownSeen{}
+		w.known[sig] = k
+	}
+	k.count++
+	if k.hist == nil || len(hist) < len(k.hist) || (len(hist) == len(k.hist) && strings.Join(hist, "\n") < strings.Join(k.hist, "\n")) {
+		k.hist, k.detail = append([]string{}, hist...), detail
+	}
+}
+
+// flushKnown hands the collected non-pruning violations to the engine (known-finding matching,
+// evidence, replay file): first the smallest witness, then one call per further occurrence.
+func (w *world) flushKnown() {
+	w.mu.Lock()
+	defer w.mu.Unlock()
+	sigs := []string{}
+	for sig := range w.known {
+		sigs = append(sigs, sig)
+	}
+	sort.Strings(sigs)
+	for _, sig := range sigs {
+		k := w.known[sig]
+		w.c.Violation(sig, map[string]interface{}{"history": k.hist, "what": k.detail}, k.hist)
+		for i := int64(1); i < k.count; i++ {
+			w.c.Violation(sig, nil, nil)
+		}
+	}
 }
 
 func (w *world) fresh() *inst { return &inst{w: w} }
@@ -442,17 +491,58 @@ func (s *inst) checkIndexes() (string, string) {
 	return "", ""
 }
 
+// Signature of the accepted known finding (the repo's own test
+// TestListForSender_AddTx_AppliesSizeConstraintsForNumBytes pins the behaviour): an AddTx after
+// which the sender is over its limits *because applySizeConstraints evicted exactly one
+// transaction from the back of the list where two or more were needed*.
+const sigKnownOneEviction = "txcache:sender-limit-exceeded:AddTx-needing-more-than-one-eviction"
+
 // checkSenderLimits: "after each addition the sender's count and byte limits hold".
-func (s *inst) checkSenderLimits(sender string) (string, string) {
-	x := s.view().sender(sender)
+// pre = the pool before the AddTx of tx (which was accepted as new). The overshoot is put in the
+// narrow known class iff the real list equals (previous list + tx) minus exactly one
+// transaction E, E does not sort before the remaining back of the list (it was the back
+// element), and the remaining list still needs >= 1 more back-to-front eviction; i.e. the
+// AddTx needed >= 2 evictions and got exactly 1. Everything else (no eviction at all, one
+// eviction would have sufficed, wrong victim, ...) is the general, alarming class.
+func (s *inst) checkSenderLimits(pre *view, tx txDesc) (sig, detail string) {
+	x := s.view().sender(tx.sender)
 	if x == nil {
 		return "", ""
 	}
-	if len(x.txs) > s.lim.perSenderCount || x.bytes > s.lim.perSenderBytes {
-		return "txcache:sender-limit-exceeded-after-AddTx", js(map[string]interface{}{"sender": sender, "list": x.hashes,
-			"count": len(x.txs), "bytes": x.bytes, "maxCount": s.lim.perSenderCount, "maxBytes": s.lim.perSenderBytes})
+	within := func(n int, bytes int64) bool { return n <= s.lim.perSenderCount && bytes <= s.lim.perSenderBytes }
+	if within(len(x.txs), x.bytes) {
+		return "", ""
 	}
-	return "", ""
+	now := map[string]bool{}
+	for _, h := range x.hashes {
+		now[h] = true
+	}
+	before := []string{}
+	if p := pre.sender(tx.sender); p != nil {
+		before = append(before, p.hashes...)
+	}
+	var evicted []string
+	for _, h := range append(append([]string{}, before...), tx.hash()) {
+		if !now[h] {
+			evicted = append(evicted, h)
+		}
+	}
+	stillNeeded, n, bytes := 0, len(x.txs), x.bytes
+	for !within(n, bytes) && n > 0 {
+		n--
+		bytes -= x.txs[n].size
+		stillNeeded++
+	}
+	d := js(map[string]interface{}{"sender": tx.sender, "listBefore": before, "offered": tx.hash(), "listAfter": x.hashes,
+		"count": len(x.txs), "bytes": x.bytes, "maxCount": s.lim.perSenderCount, "maxBytes": s.lim.perSenderBytes,
+		"evicted": evicted, "evictionsStillNeeded": stillNeeded})
+	if len(evicted) == 1 && stillNeeded >= 1 {
+		e, _ := parseTx(evicted[0])
+		if !less(e, x.txs[len(x.txs)-1]) {
+			return sigKnownOneEviction, d
+		}
+	}
+	return "txcache:sender-limit-exceeded-after-AddTx", d
 }
 
 // ---- C26 oracle -----------------------------------------------------------------------------
@@ -553,6 +643,7 @@ func (s *inst) checkSelection(pre *view, n, batch int, result []*txcache.Wrapped
 
 func (s *inst) do(o opDesc) (sig, detail string) {
 	s.nt, s.out = "", ""
+	s.hist = append(s.hist, o.name)
 	c25 := s.w.prop == "C25"
 	if o.kind == kCfg {
 		s.configure(o)
@@ -590,8 +681,14 @@ func (s *inst) do(o opDesc) (sig, detail string) {
 				s.w.c.Count("steps_with_"+kind, 1)
 			}
 			s.out = fmt.Sprintf("add %v %v %d %d %d", ok, added, post.countTx, post.numBytes, post.countSenders)
-			if sg, d := s.checkSenderLimits(o.tx.sender); sg != "" {
-				return sg, d
+			if added { // a rejected duplicate is not an addition
+				sg, d := s.checkSenderLimits(pre, o.tx)
+				if sg == sigKnownOneEviction {
+					// known class: reported, but the state is still explored (all other oracles stay active)
+					s.w.noteKnown(sg, d, s.hist)
+				} else if sg != "" {
+					return sg, d
+				}
 			}
 		}
 	case kRm:
@@ -726,7 +823,12 @@ func (a alphabet) menu() []opDesc {
 			ops = append(ops, mustOp(fmt.Sprintf("select n=%d batch=%d", n, b)))
 		}
 	}
+	named := map[string]bool{}
 	for _, s := range a.senders {
+		if named[s.name] {
+			continue
+		}
+		named[s.name] = true
 		for _, n := range a.notify {
 			ops = append(ops, mustOp(fmt.Sprintf("notify %s %d", s.name, n)))
 		}
@@ -738,41 +840,51 @@ func (a alphabet) menu() []opDesc {
 	return ops
 }
 
-func alphabetFor(c *mc.Ctx) alphabet {
+// phasesFor returns the BFS phases (alphabet, depth) of the property and tier.
+func phasesFor(c *mc.Ctx) []alphabet {
+	base := func(depth int, senders ...senderAlpha) alphabet {
+		return alphabet{senders: senders, selN: []int{1, 5}, selB: []int{1, 3}, notify: []uint64{0, 1, 3}, chunks: []uint32{1, 2}, depth: depth}
+	}
 	full := func(name string) senderAlpha {
 		return senderAlpha{name, []uint64{0, 1, 2, 3}, []int{1, 2}, []int64{10, 40, 70}}
 	}
-	a := alphabet{selN: []int{1, 5}, selB: []int{1, 3}, notify: []uint64{0, 1, 3}, chunks: []uint32{1, 2}}
+	// C25 "deep" alphabet: every size for a (trim by bytes and by count, two evictions needed),
+	// one equal-nonce price pair, b and c large enough to push the pool over its byte and
+	// count thresholds (global eviction) together with a.
+	deep25 := []senderAlpha{
+		{"a", []uint64{0, 1, 2}, []int{1}, []int64{10, 40, 70}},
+		{"a", []uint64{1}, []int{2}, []int64{40}},
+		{"b", []uint64{1, 2}, []int{1}, []int64{40, 70}},
+		{"c", []uint64{1}, []int{1}, []int64{70}},
+	}
+	// C26 alphabets: nonce 0 and gaps at every position for a (score 0: the requested batch
+	// size is the effective one), fewer shapes for b and c
+	small26 := []senderAlpha{
+		{"a", []uint64{0, 1, 2, 3}, []int{1, 2}, []int64{40}},
+		{"b", []uint64{0, 2}, []int{1}, []int64{40}},
+		{"c", []uint64{1, 3}, []int{1}, []int64{70}},
+	}
+	large26 := []senderAlpha{
+		{"a", []uint64{0, 1, 2, 3}, []int{1, 2}, []int64{40, 70}},
+		{"b", []uint64{0, 1, 2, 3}, []int{1, 2}, []int64{40}},
+		{"c", []uint64{0, 1, 3}, []int{1}, []int64{70}},
+	}
+	var phases []alphabet
 	switch {
 	case c.Prop == "C25" && c.Quick():
-		a.senders = []senderAlpha{
-			{"a", []uint64{0, 1, 2}, []int{1, 2}, []int64{40, 70}},
-			{"b", []uint64{1, 2}, []int{1}, []int64{40, 70}},
-			{"c", []uint64{1}, []int{1}, []int64{70}},
-		}
-		a.depth = 5
+		phases = []alphabet{base(6, deep25...)}
 	case c.Prop == "C25":
-		a.senders = []senderAlpha{full("a"), full("b"), full("c")}
-		a.depth = 5
+		phases = []alphabet{base(8, deep25...), base(4, full("a"), full("b"), full("c"))}
 	case c.Quick():
-		a.senders = []senderAlpha{
-			{"a", []uint64{0, 1, 2, 3}, []int{1, 2}, []int64{40}},
-			{"b", []uint64{0, 2}, []int{1}, []int64{40}},
-			{"c", []uint64{1, 3}, []int{1}, []int64{70}},
-		}
-		a.depth = 5
+		phases = []alphabet{base(6, small26...)}
 	default:
-		a.senders = []senderAlpha{
-			{"a", []uint64{0, 1, 2, 3}, []int{1, 2}, []int64{40, 70}},
-			{"b", []uint64{0, 1, 2, 3}, []int{1, 2}, []int64{40}},
-			{"c", []uint64{0, 1, 3}, []int{1}, []int64{70}},
-		}
-		a.depth = 6
+		phases = []alphabet{base(8, small26...), base(5, large26...)}
 	}
 	if v, err := strconv.Atoi(os.Getenv("VERIF_TXC_DEPTH")); err == nil && v > 0 {
-		a.depth = v // development aid: measure other depths
+		phases[0].depth = v // development aid: measure other depths (first phase only)
+		phases = phases[:1]
 	}
-	return a
+	return phases
 }
 
 // ---- C26 phase 2: all pools of a bounded shape ----------------------------------------------
@@ -908,56 +1020,63 @@ func main() {
 				c.Fatal("bad replay data: %v", err)
 			}
 			runHistory(c, w, hist, true)
+			w.flushKnown()
 			return
 		}
 
-		a := alphabetFor(c)
-		ops := a.menu()
-		menu := make([]string, len(ops))
-		for i, o := range ops {
-			menu[i] = o.name
-		}
-		sys := mc.Sys[*inst]{
-			Init: w.fresh,
-			Menu: menu,
-			Enabled: func(s *inst, op int) bool {
-				o := ops[op]
-				if s.cache == nil {
-					return o.kind == kCfg
-				}
-				switch o.kind {
-				case kCfg:
-					return false
-				case kRm:
-					if o.tx.sender == "" {
-						return true
+		var rules, bounds []string
+		for i, a := range phasesFor(c) {
+			a := a
+			ops := a.menu()
+			menu := make([]string, len(ops))
+			for i, o := range ops {
+				menu[i] = o.name
+			}
+			sys := mc.Sys[*inst]{
+				Init: w.fresh,
+				Menu: menu,
+				Enabled: func(s *inst, op int) bool {
+					o := ops[op]
+					if s.cache == nil {
+						return o.kind == kCfg
 					}
-					h := o.tx.hash()
-					v := s.view()
-					i := sort.SearchStrings(v.index, h)
-					return (i < len(v.index) && v.index[i] == h) || v.allListed()[h]
-				}
-				return true
-			},
-			Do:         func(s *inst, op int) (string, string) { return s.do(ops[op]) },
-			Check:      func(s *inst) (string, string) { return s.check() },
-			Key:        func(s *inst) string { return s.key() },
-			Nontrivial: func(s *inst) string { return s.nt },
-			Outcome:    func(s *inst) string { return s.out },
+					switch o.kind {
+					case kCfg:
+						return false
+					case kRm:
+						if o.tx.sender == "" {
+							return true
+						}
+						h := o.tx.hash()
+						v := s.view()
+						i := sort.SearchStrings(v.index, h)
+						return (i < len(v.index) && v.index[i] == h) || v.allListed()[h]
+					}
+					return true
+				},
+				Do:         func(s *inst, op int) (string, string) { return s.do(ops[op]) },
+				Check:      func(s *inst) (string, string) { return s.check() },
+				Key:        func(s *inst) string { return s.key() },
+				Nontrivial: func(s *inst) string { return s.nt },
+				Outcome:    func(s *inst) string { return s.out },
+			}
+			st := mc.BFS(c, sys, a.depth+1)
+			c.Set(fmt.Sprintf("bfs_phase_%d", i+1), map[string]interface{}{"menu_size": len(menu), "depth_reached": st.Depth - 1,
+				"states": st.States, "transitions": st.Transitions, "fixpoint": st.Fixpoint})
+			rules = append(rules, fmt.Sprintf("BFS %d: %s", i+1, a.String()))
+			bounds = append(bounds, fmt.Sprintf("BFS %d: all operation sequences of length <= %d after choosing NumChunks (state matching on the canonical pool state)", i+1, a.depth))
 		}
-		st := mc.BFS(c, sys, a.depth+1)
-		c.Set("bfs_depth_reached", st.Depth)
-		c.Set("bfs_fixpoint", st.Fixpoint)
-		c.Set("menu_size", len(menu))
+		w.flushKnown()
+		rule, bound := strings.Join(rules, " || "), strings.Join(bounds, "; ")
 		if c.Prop == "C25" {
-			c.Rule = "BFS over " + a.String() + ". Non-trivial = a step in which a pooled (or just offered) transaction left the pool without a removal request: per-sender trim, global eviction (pool over a threshold when AddTx starts) or sweep after selection; key = kind + operation + transactions lost"
-			c.Bound = fmt.Sprintf("all operation sequences of length <= %d after choosing NumChunks (state matching on the canonical pool state)", a.depth)
+			c.Rule = rule + ". Non-trivial = a step in which a pooled (or just offered) transaction left the pool without a removal request: per-sender trim, global eviction (pool over a threshold when AddTx starts) or sweep after selection; key = kind + operation + transactions lost"
+			c.Bound = bound
 		} else {
 			before := c.Counter("selections_checked")
 			poolPhase(c, w)
 			c.Set("pool_phase_selections", c.Counter("selections_checked")-before)
-			c.Rule = "(1) BFS over " + a.String() + "; every selection result judged against the pool before the call. (2) pools: sender a any subset of nonces 0..5 (optionally two prices for its lowest nonce) x sender c any subset of 0..3 x notified nonce of a in {none,0,1,2} x n {1,2,3,5,10} x batch {1,2,3}, per-sender limit 8, the selection issued 3 times in a row. Non-trivial = selection over a pool in which some sender has a nonce gap (first pooled nonce above notified account nonce, or two consecutive pooled nonces differing by more than 1); key = pool + notifications + failed-selection counters + (n, batch)"
-			c.Bound = fmt.Sprintf("BFS: all operation sequences of length <= %d after choosing NumChunks; pools: complete", a.depth)
+			c.Rule = rule + "; every selection result judged against the pool before the call. || pools: sender a any subset of nonces 0..5 (optionally two prices for its lowest nonce) x sender c any subset of 0..3 x notified nonce of a in {none,0,1,2} x n {1,2,3,5,10} x batch {1,2,3}, per-sender limit 8, the selection issued 3 times in a row. Non-trivial = selection over a pool in which some sender has a nonce gap (first pooled nonce above notified account nonce, or two consecutive pooled nonces differing by more than 1); key = pool + notifications + failed-selection counters + (n, batch)"
+			c.Bound = bound + "; pools: complete"
 		}
 	})
 }
